@@ -34,7 +34,7 @@ ASSUMPTIONS = ['not judged: then-steps naming a state that does not exist, map_a
 THEN_KINDS = ['state entered', 'state not entered', 'state exited', 'state not exited', 'state active', 'state not active',
               'event fired', 'event fired with', 'event fired table', 'event not fired', 'no event fired', 'variable equals',
               'variable not equal', 'expression holds', 'expression not hold', 'final', 'not final']
-REQUIRED_COUNTERS = ['features_with_background', 'given_step_after_when', 'feature_files', 'scenarios', 'then_steps_checked', 'given_when_steps_checked', 'testing_predicate_checks',
+REQUIRED_COUNTERS = ['cross_event_parameter_mix', 'features_with_background', 'given_step_after_when', 'feature_files', 'scenarios', 'then_steps_checked', 'given_when_steps_checked', 'testing_predicate_checks',
                      'blocks_without_macro_step', 'same_event_twice_in_step'] + \
     ['then_%s_%s' % (k.replace(' ', '_'), v) for k in THEN_KINDS for v in ('true', 'false')]
 
@@ -206,8 +206,12 @@ def gen_scenario(rnd, ch, idx, earlier, orc):
                                                 '' if pos else 'not ')
             elif kind in ('event fired with', 'event fired table'):
                 real = [(e.name, e.data.get('v'), e.data.get('w')) for e in sent if 'v' in e.data]
+                mixes = [(a[0], a[1], b[2]) for a in real for b in real if a[0] == b[0] and (a[0], a[1], b[2]) not in real]
                 if want and real:
                     n_, v_, w_ = rnd.choice(real)
+                elif mixes and rnd.random() < 0.7:
+                    n_, v_, w_ = rnd.choice(mixes)      # v of one fired event with w of another one: no single event matches
+                    add_count('cross_event_parameter_mix')
                 else:
                     n_, v_, w_ = rnd.choice(outs), rnd.randint(0, 6), 't0'
                 if kind == 'event fired with':
@@ -215,7 +219,7 @@ def gen_scenario(rnd, ch, idx, earlier, orc):
                 else:
                     text = 'event %s is fired' % n_
                     table = [('v', str(v_))]
-                    if rnd.random() < 0.4:
+                    if rnd.random() < 0.6:
                         table.append(('w', repr(w_)))
             elif kind == 'no event fired':
                 text = 'no event is fired'
@@ -227,8 +231,12 @@ def gen_scenario(rnd, ch, idx, earlier, orc):
             elif kind in ('expression holds', 'expression not hold'):
                 x = it.context.get('x', 0)
                 pos = (kind == 'expression holds') == want
+                act_states = [q for q in states if (q in cfg) == pos]
                 expr = rnd.choice(['x > %d' % (x - 1 if pos else x), 's == %r' % (it.context.get('s') if pos else 'nope'),
-                                   'x == %d and entries >= 1' % (x if pos else x + 1), 'exits %s 0' % ('>=' if pos else '<')])
+                                   'x == %d and entries >= 1' % (x if pos else x + 1), 'exits %s 0' % ('>=' if pos else '<'),
+                                   # the documented evaluator also exposes active() and time to the expression
+                                   'active(%r)' % rnd.choice(act_states) if act_states else 'x >= 0' if pos else 'x < 0',
+                                   'time %s %r' % ('==' if pos else '<', it.time)])
                 text = 'expression "%s" %s' % (expr, 'holds' if kind == 'expression holds' else 'does not hold')
             elif kind == 'final':
                 text = 'statechart is in a final configuration'
@@ -356,7 +364,9 @@ class Oracle:
             return (it.context[m.group(1)] == int(m.group(3))) == (m.group(2) == 'equals')
         m = re.match(r'expression "(.*)" (holds|does not hold)$', text)
         if m:
-            return bool(eval(m.group(1), {}, dict(it.context))) == (m.group(2) == 'holds')
+            env = dict(it.context)
+            env.update(active=lambda name: name in it.configuration, time=it.time)
+            return bool(eval(m.group(1), {}, env)) == (m.group(2) == 'holds')
         if text == 'statechart is in a final configuration':
             return it.final
         if text == 'statechart is not in a final configuration':
